@@ -14,6 +14,7 @@ from ..runner import HarnessError, Part
 
 PROP = "C10"
 RULE = (
+    "[spill locations also carry names with glob/regex/shell metacharacters, blanks, non-ASCII letters and nesting] "
     "differential: the same publish/pull history is run on a real Output >> [adapter] >> Input chain without "
     "memory limit and with a limit drawn relative to the payload size b (0, b-1, b, 1.5b, 2b, 3b), for every "
     "buffering slot kind (plain output, next, prev, linear, step, avg, sum per-time / absolute) and payload "
@@ -163,9 +164,11 @@ def check(case, ctx):
     old = os.getcwd()
     try:
         cwd = os.path.join(root, "cwd")
-        loc = os.path.join(root, "spill")
+        loc = os.path.join(root, case.get("locname", "spill"))
         os.makedirs(cwd)
         os.makedirs(loc)
+        if case.get("locname", "spill") != "spill":
+            ctx.event("location-name-with-special-characters")
         os.chdir(cwd)
         ref, _ = _run(case, None, None, ctx)
         try:
@@ -231,12 +234,18 @@ FIXED_HISTORIES = [
 ]
 
 
+# directory names a user may pick for the spill location (glob / regex / shell metacharacters, blanks, non-ASCII, nesting)
+LOCNAMES = ["spill", "scenario[1]", "with space", "ens [a-c]/member[07]/tmp", "x*y?", "\u00fcml\u00e4ut", "a.b/c+d", "{1,2}$HOME~"]
+
+
 def enum_cases(tier):
+    i = 0
     for kind in KINDS:
         for pk in PAYLOADS:
             for lim in LIMITS:
                 for h in FIXED_HISTORIES:
-                    yield {"kind": kind, "payload": pk, "limit": lim, "ops": h}
+                    i += 1
+                    yield {"kind": kind, "payload": pk, "limit": lim, "ops": h, "locname": LOCNAMES[(i * 5) % len(LOCNAMES)] if i % 3 == 0 else "spill"}
 
 
 BIG = 700_000  # 5.6 MB per publication: code paths that depend on the payload size
@@ -265,6 +274,7 @@ def case_st(draw):
         "payload": draw(st.sampled_from(PAYLOADS)),
         "limit": draw(st.sampled_from(LIMITS)),
         "ops": ops,
+        "locname": draw(st.sampled_from(["spill", "spill"] + LOCNAMES)),
     }
 
 
@@ -398,8 +408,11 @@ def check_comp(case, ctx):
     old = os.getcwd()
     seen = {"stray": None, "max": 0}
     try:
-        cwd, loc = os.path.join(root, "cwd"), os.path.join(root, "spill")
+        cwd, loc = os.path.join(root, "cwd"), os.path.join(root, case.get("locname", "spill"))
         os.makedirs(cwd)
+        os.makedirs(os.path.dirname(loc), exist_ok=True)  # parents exist, the location itself is left to finam
+        if case.get("locname", "spill") != "spill":
+            ctx.event("location-name-with-special-characters")
         os.chdir(cwd)
         ref, _ = _run_comp(case, False, None)
         if os.listdir(cwd):
@@ -462,7 +475,8 @@ def enum_comp(tier):
                     if where == "adapter" and not KINDS[kind]:
                         continue
                     for pstep, cstep in ((60, 60), (30, 90), (90, 40)):
-                        yield {"kind": kind, "payload": pk, "limit": lim, "where": where, "pstep": pstep, "cstep": cstep, "end": 400}
+                        yield {"kind": kind, "payload": pk, "limit": lim, "where": where, "pstep": pstep, "cstep": cstep, "end": 400,
+                               "locname": LOCNAMES[(pstep + len(kind) + len(pk)) % len(LOCNAMES)] if where != "output" else "spill"}
 
 
 comp_st = st.fixed_dictionaries({
@@ -473,6 +487,7 @@ comp_st = st.fixed_dictionaries({
     "pstep": st.integers(10, 120),
     "cstep": st.integers(10, 120),
     "end": st.integers(50, 600),
+    "locname": st.sampled_from(["spill", "spill"] + LOCNAMES),
 })
 
 
